@@ -234,9 +234,10 @@ class History:
         return canon.digest(self.ops)
 
 
-COMPARED = ("load", "load_fo", "dis", "cli", "opc", "opmod", "std", "mdumps", "mloads", "rewrite")
+COMPARED = ("load", "load_fo", "dis", "cli", "opc", "opmod", "std", "mdumps", "mloads", "rewrite", "lineoffs",
+            "info")
 FAULT_OPS = ("dis_abort", "load_abort")
-SLOT_OPS = ("load", "load_fo", "dis", "cli", "std", "dis_abort", "load_abort", "rewrite")
+SLOT_OPS = ("load", "load_fo", "dis", "cli", "std", "dis_abort", "load_abort", "rewrite", "lineoffs", "info")
 
 
 def plan_chain(i, seed, rng):
@@ -349,7 +350,7 @@ def plan_history(i):
         ops.append(["install", slot, sha, name])
 
     kinds_all = [("load", 10), ("load_fo", 3), ("dis", 14), ("opc", 5), ("opmod", 3), ("std", 5), ("mdumps", 3),
-                 ("mloads", 3), ("import", 3), ("install", 8), ("rewrite", 3)]
+                 ("mloads", 3), ("import", 3), ("install", 8), ("rewrite", 3), ("lineoffs", 2), ("info", 2)]
     if W["have_click"]:
         kinds_all.append(("cli", 3))
     if h.faulty:
@@ -362,8 +363,8 @@ def plan_history(i):
         if kind == "install":
             install(rng.below(nslots), rng.chance(2, 3))
             continue
-        if kind in ("load", "load_fo", "dis", "cli", "std", "dis_abort", "load_abort", "rewrite"):
-            need_small = kind in ("dis", "cli", "std", "dis_abort", "rewrite")
+        if kind in ("load", "load_fo", "dis", "cli", "std", "dis_abort", "load_abort", "rewrite", "lineoffs", "info"):
+            need_small = kind in ("dis", "cli", "std", "dis_abort", "rewrite", "lineoffs", "info")
             cands = [s for s in sorted(slots) if (slots[s]["small"] or slots[s]["faulted"] or not need_small)]
             if not cands:
                 install(rng.below(nslots), True)
@@ -380,8 +381,8 @@ def plan_history(i):
                 ops.append(["cli", s, st["sha"], st["name"], rng.choice(FORMATS)])
             elif kind == "std":
                 ops.append(["std", s, st["sha"], st["name"]])
-            elif kind == "rewrite":
-                ops.append(["rewrite", s, st["sha"], st["name"]])
+            elif kind in ("rewrite", "lineoffs", "info"):
+                ops.append([kind, s, st["sha"], st["name"]])
             elif kind == "dis_abort":
                 k = rng.choice([1, 1, 2, 3, 4, 5, 8, 13, 21, rng.between(1, 60)])
                 fmt = rng.choice(FORMATS)
@@ -605,6 +606,28 @@ def _do_op(op, detail):
                 se.append([opname, type(e).__name__])
         d["stack_effects"] = se
         res["ret"] = ["std", d]
+    elif kind == "lineoffs":
+        from xdis.lineoffsets import lineoffsets_in_file
+
+        info = lineoffsets_in_file(op[3])
+        res["ret"] = ["lineoffsets", canon.canon_value(sorted(info.line_numbers(include_offsets=True).items())
+                                                      if isinstance(info.line_numbers(include_offsets=True), dict)
+                                                      else info.line_numbers(include_offsets=True), (3, 8)),
+                      canon.canon_value(sorted(info.lines.items()) if isinstance(getattr(info, "lines", None), dict)
+                                        else repr(type(getattr(info, "lines", None))), (3, 8))]
+        res["text"] = str(info)
+    elif kind == "info":
+        from xdis.bytecode import Bytecode
+        from xdis.cross_dis import code_info, findlabels, findlinestarts
+        from xdis.disasm import get_opcode
+        from xdis.load import load_module
+
+        version, ts, magic_int, co, is_pypy, size, sip = load_module(op[3])
+        opc = get_opcode(version, is_pypy)
+        bc = Bytecode(co, opc)
+        res["text"] = bc.info() + "\n" + bc.dis() + "\n" + code_info(co, version)
+        res["ret"] = ["info", canon.canon_value(sorted(findlabels(co.co_code, opc)), (3, 8)),
+                      canon.canon_value([tuple(p) for p in findlinestarts(co)], (3, 8))]
     elif kind == "rewrite":
         from xdis.load import load_module, write_bytecode_file
 
